@@ -38,6 +38,42 @@ const (
 
 var dialName = []string{"stock", "strict-savepoint"}
 
+// handle derivations: how a block obtains the handle it issues its statements
+// through, from the tx it was given. Everything issued through such a handle
+// belongs to tx's transaction.
+const (
+	derNone = iota
+	derSessionPrepare
+	derSession
+	derSessionNewDB
+	derWithContext
+	derSkipHooks
+	derDebug
+	numDerive
+)
+
+var deriveName = []string{"tx", "tx.Session{PrepareStmt:true}", "tx.Session{}", "tx.Session{NewDB:true}", "tx.WithContext(ctx)", "tx.Session{SkipHooks:true}", "tx.Debug()"}
+
+type ctxKey struct{}
+
+func derive(tx *gorm.DB, kind int) *gorm.DB {
+	switch kind {
+	case derSessionPrepare:
+		return tx.Session(&gorm.Session{PrepareStmt: true})
+	case derSession:
+		return tx.Session(&gorm.Session{})
+	case derSessionNewDB:
+		return tx.Session(&gorm.Session{NewDB: true})
+	case derWithContext:
+		return tx.WithContext(context.WithValue(context.Background(), ctxKey{}, "c04"))
+	case derSkipHooks:
+		return tx.Session(&gorm.Session{SkipHooks: true})
+	case derDebug:
+		return tx.Debug()
+	}
+	return tx
+}
+
 func cfgString(bits, dial int) string {
 	on := func(b int) string {
 		if bits&b != 0 {
